@@ -188,27 +188,38 @@ class FeatureStructure:
                     current_dereferenced.content[feature] = FeatureStructure()
                 current_dereferenced.content[feature].unify(other_dereferenced.content[feature])
 
-    def subsumes(self, other: "FeatureStructure"):
+    def subsumes(self, other: "FeatureStructure", matched=None):
         """Check whether the current feature structure subsumes another one.
 
         Parameters
         ----------
         other : :class:`~pyformlang.fcfg.FeatureStructure`
             The other feature structure to unify.
+        matched : dict, optional
+            The structures of the other one already matched with structures \
+            of the current one (internal usage)
 
         Returns
         ----------
         subsumes : bool
             Whether the current feature structure subsumes the one.
         """
+        if matched is None:
+            matched = {}
         current_dereferenced = self.get_dereferenced()
         other_dereferenced = other.get_dereferenced()
+        # Paths sharing a structure here must share a structure in the other
+        previous = matched.setdefault(id(current_dereferenced),
+                                      other_dereferenced)
+        if previous is not other_dereferenced:
+            return False
         if current_dereferenced.value != other_dereferenced.value:
             return False
         for feature in current_dereferenced.content:
             if feature not in other_dereferenced.content:
                 return False
-            if not current_dereferenced.content[feature].subsumes(other_dereferenced.content[feature]):
+            if not current_dereferenced.content[feature].subsumes(
+                    other_dereferenced.content[feature], matched):
                 return False
         return True
 
